@@ -18,7 +18,7 @@ from runner import Case
 THEOREMS = [
     "C08.pairs_fold", "C08.pairs_fold_ok", "C08.pairs_fold_needs_valid", "C08.prefix_loop_not_fold",
     "C08.shift_ok", "C08.shift_paths_gen", "C08.shift_paths", "C08.shift_keeps_ids", "C08.shift_frame",
-    "C08.delete_children_paths", "C08.overriding_paths", "C08.merge_children_paths",
+    "C08.delete_children_paths", "C08.overriding_paths", "C08.merge_children_paths", "C08.merge_leaves_paths",
     "C08.replace_keeps_position", "C08.replace_later_sibling_observation",
     "C08.copy_ok", "C08.copy_paths", "C08.copy_fresh_ids", "C08.copy_origin_untouched",
     "C08.source_untouched", "C08.t2t_copy", "C08.delete_paths",
@@ -776,6 +776,23 @@ def wide_case(rng):
     return mk_case(d, sorted(tags))
 
 
+def sibling_replace_case(rng):
+    """shift_and_replace_nodes where from-node and replaced node are children of the same parent, with at least
+    one sibling on each side of the replaced node; the from-node is before or after it"""
+    n = rng.randint(4, 7)
+    names = rng.sample("abcdefgh", n)
+    kids = [(nm, {}, [("g", {}, [])] if rng.random() < 0.3 else []) for nm in names]
+    di = rng.randint(1, n - 2)
+    fi = rng.choice([i for i in range(n) if i != di])
+    top = rng.random() < 0.5
+    dst = _tagged(("r", {}, kids) if top else ("r", {}, [("p", {}, kids), ("o", {}, [])]))
+    base = ("r",) if top else ("r", "p")
+    fl = [0, 0, 0, 0, int(rng.random() < 0.2), int(rng.random() < 0.6)]
+    d = {"fn": "replace", "dst": dst, "src": None, "dsep": "/", "ssep": "/", "sep": "/", "flags": fl,
+         "from": [pstr(base + (names[fi],), "/")], "to": [pstr(base + (names[di],), "/")]}
+    return mk_case(d, ("replace", "same-parent", "from-later" if fi > di else "from-earlier", "pairs=1"))
+
+
 def corpus():
     cases = []
     # D4 witness: overriding + merge_children, first destination exists -> the pre-fix code stopped merging
@@ -854,6 +871,8 @@ def gen(rng: random.Random, tier: str):
         cases.append(random_case(rng, big=True))
     for _ in range(300 if tier == "quick" else 3000):
         cases.append(wide_case(rng))
+    for _ in range(200 if tier == "quick" else 2000):
+        cases.append(sibling_replace_case(rng))
     return cases
 
 
